@@ -272,6 +272,33 @@ def inject_case(draw):
                   t]
         if draw(st.integers(0, 4)) == 0:
             action.reverse()
+    followup = [draw(mutation_op())
+                for _ in range(draw(st.integers(0, 2)))]
+    if point in ('generation', 'generation_changed') and \
+            draw(st.integers(0, 3)) == 0:
+        # recipe: while the verifying registry reads a base's generation,
+        # the registry itself is given other bases; afterwards something
+        # is registered in the NEW base: the registry has to notice (what it
+        # recorded during the interrupted refresh must not describe the old
+        # chain - seed C11j).  Two tops that answer differently.
+        top = draw(st.sampled_from(['plain', 'verifying']))
+        bp['regs'] = [{'bases': [], 'flavour': top},
+                      {'bases': [], 'flavour': top},
+                      {'bases': [0], 'flavour': 'verifying'}]
+        key[0] = 2
+        arity = len(key[1])
+        contents = contents + [
+            ['reg', 0, [['N']] * arity, key[2], key[3], False],
+            ['reg', 1, [['N']] * arity, key[2], key[3], False]]
+        action = [['rbases', 2, [1]]]
+        if draw(st.booleans()):
+            action.append(['nested', entry if entry != 'call' else 'lookup',
+                           True, key])
+        followup = [draw(content_op().filter(
+            lambda o: o[0] in ('treg', 'tsub')))]
+        followup[0][1] = 1          # chain index 1: the (new) first base
+        if draw(st.booleans()):
+            followup.append(draw(mutation_op()))
     warm = draw(st.lists(st.tuples(st.sampled_from(ENTRY[:9]),
                                    st.booleans()).map(list), max_size=3))
     return {'kind': 'inject', 'bp': bp, 'contents': contents,
@@ -283,8 +310,7 @@ def inject_case(draw):
                 else [0, 0, 0, 0, 0, 1])),
             'bump': draw(st.booleans()) or point == 'generation_changed',
             'warm': warm,
-            'followup': [draw(mutation_op())
-                         for _ in range(draw(st.integers(0, 2)))]}
+            'followup': followup}
 
 
 @st.composite
